@@ -86,6 +86,7 @@ impl<'a> Parser<'a> {
         while !self.is_at_end() {
             body.push(self.parse_statement()?);
         }
+        Self::check_redeclarations(&body)?;
 
         Ok(Program {
             body: body.into(),
@@ -682,6 +683,89 @@ impl<'a> Parser<'a> {
         Ok(params)
     }
 
+    /// Early error: a `let`, `const` or `class` name may be declared only once in a statement
+    /// list, and not together with a `var` or function of the same name
+    fn check_redeclarations(body: &[Statement]) -> Result<(), JsError> {
+        fn names_of(pattern: &Pattern, out: &mut Vec<Identifier>) {
+            match pattern {
+                Pattern::Identifier(id) => out.push(id.clone()),
+                Pattern::Object(obj) => {
+                    for prop in &obj.properties {
+                        match prop {
+                            ObjectPatternProperty::KeyValue { value, .. } => names_of(value, out),
+                            ObjectPatternProperty::Rest(rest) => names_of(&rest.argument, out),
+                        }
+                    }
+                }
+                Pattern::Array(arr) => {
+                    for elem in arr.elements.iter().flatten() {
+                        names_of(elem, out);
+                    }
+                }
+                Pattern::Rest(rest) => names_of(&rest.argument, out),
+                Pattern::Assignment(assign) => names_of(&assign.left, out),
+            }
+        }
+        let redeclared = |id: &Identifier| {
+            JsError::syntax_error(
+                format!("Identifier '{}' has already been declared", id.name),
+                id.span.line,
+                id.span.column,
+            )
+        };
+
+        let mut lexical: FxHashSet<JsString> = FxHashSet::default();
+        let mut var_like: FxHashSet<JsString> = FxHashSet::default();
+        for statement in body {
+            let statement = match statement {
+                Statement::Export(export) => match &export.declaration {
+                    Some(declaration) => declaration.as_ref(),
+                    None => continue,
+                },
+                other => other,
+            };
+            match statement {
+                Statement::VariableDeclaration(decl) => {
+                    let mut names = Vec::new();
+                    for declarator in decl.declarations.iter() {
+                        names_of(&declarator.id, &mut names);
+                    }
+                    for id in names {
+                        if decl.kind == VariableKind::Var {
+                            if lexical.contains(&id.name) {
+                                return Err(redeclared(&id));
+                            }
+                            var_like.insert(id.name);
+                        } else {
+                            if lexical.contains(&id.name) || var_like.contains(&id.name) {
+                                return Err(redeclared(&id));
+                            }
+                            lexical.insert(id.name);
+                        }
+                    }
+                }
+                Statement::ClassDeclaration(class) => {
+                    if let Some(id) = &class.id {
+                        if lexical.contains(&id.name) || var_like.contains(&id.name) {
+                            return Err(redeclared(id));
+                        }
+                        lexical.insert(id.name.clone());
+                    }
+                }
+                Statement::FunctionDeclaration(func) => {
+                    if let Some(id) = &func.id {
+                        if lexical.contains(&id.name) {
+                            return Err(redeclared(id));
+                        }
+                        var_like.insert(id.name.clone());
+                    }
+                }
+                _ => {}
+            }
+        }
+        Ok(())
+    }
+
     /// Check for duplicate parameter names in strict mode.
     /// Collects all binding names from a pattern and checks against seen names.
     fn check_duplicate_params(
@@ -1030,6 +1114,7 @@ impl<'a> Parser<'a> {
         }
 
         self.require_token(&TokenKind::RBrace)?;
+        Self::check_redeclarations(&body)?;
 
         let span = self.span_from(start);
         Ok(BlockStatement {
